@@ -425,10 +425,27 @@ theorem C03_wf_rest_partial (ext : Ext) (fields : List Field) (rows : List SVal)
     exact Lemmas.C03.WFX_of_PX root
       (root_facts ext fields rows root hmap hschema hpush (hwfb root hr) (hstrict root hr) hr).2.2.2 (hrest root hr)
 
-/-- leaf values stay within the physical range of their type (explicit assumptions: `ExtOK`, `FloatOK`, `SValOK`) -/
+/-- leaf values stay within the physical range of their type (explicit assumptions: `ExtOK`, `SValOK`; `FloatOK` is
+proved: `floatOK`) -/
 theorem push_LR (ext : Ext) (he : Lemmas.C03.ExtOK ext) (hf : Lemmas.C03.FloatOK) (x : SVal) (b b' : B)
     (hx : Lemmas.C03.SValOK x) (h : push ext b x = .ok b') (hp : Lemmas.C03.LR b) : Lemmas.C03.LR b' :=
   Lemmas.C03.push_LR ext he hf x b b' hx h hp
+
+/-- the IEEE conversions of the model return bit patterns of the target width -/
+theorem floatOK : Lemmas.C03.FloatOK := Lemmas.C03.floatOK
+
+/-- non-vacuity of `ExtOK`: the default `Ext` (every external parser refuses) satisfies it -/
+example : Lemmas.C03.ExtOK {} where
+  date := by intro s v h; cases h
+  time := by intro u s v h; cases h
+  timestamp := by intro u utc s v h; cases h
+  duration := by intro u s v h; cases h
+
+/-- non-vacuity of `SValOK`: a record with an `i32`, an `f32` and a nested sequence -/
+example : Lemmas.C03.SValOK (.record "R" (.cons "a" 0 (.int .i32 7) (.cons "b" 1 (.f32 1065353216)
+    (.cons "c" 2 (.seq (.cons (.some (.int .u8 255)) .nil)) .nil)))) := by
+  simp [Lemmas.C03.SValOK, Lemmas.C03.SFieldsOK, Lemmas.C03.SValsOK, Lemmas.C03.ScalarOK, IntTy.inRange, IntTy.min,
+    IntTy.max]
 
 /-- what `push_scalar_value` of a bytes-view builder writes designates the pushed bytes -/
 theorem decodeView_inline (bufs : List Bytes) (data : Bytes) (h : data.length ≤ 12) :
@@ -443,8 +460,7 @@ theorem decodeView_extern (buf data : Bytes) (hlen : 12 < data.length) (hsmall :
   * fields whose Map types have exactly two entry children (`Map2F`), without `FixedSizeBinary(0)` and with integer
     dictionary keys (`SchemaOKF`) — each exclusion is a recorded finding with a witness in this file,
   * rows that are well-formed serde values (`SValOK`: an `iN`/`uN`/`f32`/`f64` call carries a value of that width),
-  * `Ext` results that fit in 64 bits (`ExtOK`) and IEEE conversions that return patterns of the target width
-    (`FloatOK`: a closed statement about `Basic/Float.lean`, not proved),
+  * `Ext` results that fit in 64 bits (`ExtOK`: what chrono parsing returns; dates after scaling to milliseconds),
   * bytes-view buffers below 4 GiB in the final state (`ViewSmall`; descriptors hold 32-bit lengths/offsets),
 every array `to_marrow` returns is a well-formed array of its field (`Spec.WF`), there is one per field, and all have
 the same number of rows.
@@ -457,7 +473,7 @@ Interface hypotheses, each discharged by one `exact` after the merge with agent-
   * `hstrict` the strict dictionary clause of that `WFB` (`StrictDict`: a recursion over `WFB`) -/
 theorem C03_wf_partial (ext : Ext) (fields : List Field) (rows : List SVal) (arrs : List Arr)
     (hmap : ∀ f ∈ fields, Lemmas.C03.Map2F f) (hschema : ∀ f ∈ fields, Lemmas.C03.SchemaOKF f)
-    (hext : Lemmas.C03.ExtOK ext) (hfloat : Lemmas.C03.FloatOK) (hrows : ∀ x ∈ rows, Lemmas.C03.SValOK x)
+    (hext : Lemmas.C03.ExtOK ext) (hrows : ∀ x ∈ rows, Lemmas.C03.SValOK x)
     (hpush : ∀ (x : SVal) (b b' : B), push ext b x = .ok b' → takeRest b' = takeRest b)
     (hwfb : ∀ root, runRows ext fields rows = .ok root → WFB root)
     (hstrict : ∀ root, runRows ext fields rows = .ok root → Lemmas.C03.StrictDict root)
@@ -472,7 +488,7 @@ theorem C03_wf_partial (ext : Ext) (fields : List Field) (rows : List SVal) (arr
   · intro root hr
     exact (root_facts ext fields rows root hmap hschema hpush (hwfb root hr) (hstrict root hr) hr).2.2.1
   · intro root hr
-    exact Lemmas.C03.runRows_WFX ext hext hfloat fields rows root hrows hr (hsmall root hr)
+    exact Lemmas.C03.runRows_WFX ext hext fields rows root hrows hr (hsmall root hr)
 
 theorem ArrFields_toList_decode : ∀ (x : ArrFields),
     x.toList.map (fun ma => decodeAll ma.2) = (decodeFields x).map (·.2)
